@@ -23,6 +23,10 @@ pub struct Case13 {
     pub faults: FaultPlan,
     /// labels: source kind, file-name shape, reference kind, map class
     pub tags: Vec<String>,
+    /// process-wide log level while the call runs ("off" | "error" | "debug" | "trace"): the tracer
+    /// may have switched the rewriter's logger on at any time
+    #[serde(default)]
+    pub log_level: String,
 }
 
 #[derive(Serialize, Deserialize, Clone, Debug)]
@@ -54,6 +58,7 @@ pub const FILE_NAMES: &[(&str, &str)] = &[
     ("C:\\x\\a.js", "windows"),
     ("/abs/nul\u{0}x.js", "nul"),
     ("LONG", "long"),
+    ("LONGCJK", "long-cjk"),
 ];
 
 fn file_name(rng: &mut Rng) -> (String, &'static str) {
@@ -68,6 +73,17 @@ fn file_name(rng: &mut Rng) -> (String, &'static str) {
             s.push_str(&format!("seg{:05}/", i));
         }
         s.push_str("a.js");
+        (s, shape)
+    } else if n == "LONGCJK" {
+        // multi-byte characters at every alignment
+        let mut s = String::from("/abs/");
+        for _ in 0..rng.range(0, 2) {
+            s.push('x');
+        }
+        for i in 0..rng.range(60, 140) {
+            s.push(['\u{4f60}', '\u{597d}', '\u{e9}', '\u{1F600}'][i % 4]);
+        }
+        s.push_str(".js");
         (s, shape)
     } else {
         (n.to_string(), shape)
@@ -550,6 +566,7 @@ pub fn gen_case(rng: &mut Rng, tier: Tier, for_sweep: bool) -> Case13 {
         fs,
         faults: FaultPlan::clean(),
         tags: vec![format!("src:{skind}"), format!("file:{fshape}"), format!("ref:{ref_kind}"), format!("map:{map_class}"), format!("cfg:{cfg_kind}")],
+        log_level: (*rng.pick(&["off", "off", "off", "error", "debug", "debug", "trace"])).to_string(),
     }
 }
 
@@ -571,7 +588,11 @@ fn gen_faults(rng: &mut Rng) -> FaultPlan {
         3 | 4 => ParentMode::NodeDirname,
         _ => ParentMode::TraitDefault,
     };
-    if rng.chance(1, 8) {
+    if rng.chance(1, 6) {
+        // the i-th open of the call fails (the same path may open once and fail the next time)
+        for _ in 0..rng.below(3) {
+            p.opens.push(None);
+        }
         p.opens.push(Some(*rng.pick(IoKind::all_open())));
     }
     // a multi-fault read schedule: faults biased to the first reads (JSON header), and to the tail
@@ -647,7 +668,14 @@ fn run_case(c: &Case13) -> CaseResult {
             return CaseResult { outcome: o, stats: Default::default(), viol };
         }
     };
+    log::set_max_level(match c.log_level.as_str() {
+        "error" => log::LevelFilter::Error,
+        "debug" => log::LevelFilter::Debug,
+        "trace" => log::LevelFilter::Trace,
+        _ => log::LevelFilter::Off,
+    });
     let res = exec::call(&cfg, &c.source, &c.file, &c.fs, &c.faults);
+    log::set_max_level(log::LevelFilter::Off);
     match &res.outcome {
         Outcome::Panic { msg, loc } => {
             viol.push(Violation::new(
@@ -894,12 +922,17 @@ impl Engine for C13 {
                 try_one(fp, format!("flip@{p}"), &mut rep, &mut viol, &mut log);
                 events += 2;
             }
-            // (c) every open fault, every parent mode
-            for k in IoKind::all_open() {
-                let mut fp = base.faults.clone();
-                fp.opens = vec![Some(*k)];
-                try_one(fp, format!("open={:?}", k), &mut rep, &mut viol, &mut log);
-                events += 1;
+            // (c) every open fault at every open index of the reference execution (and one past it),
+            // every parent mode
+            let n_opens = r0.stats.opens.len();
+            for oi in 0..=n_opens {
+                for k in IoKind::all_open() {
+                    let mut fp = base.faults.clone();
+                    fp.opens = vec![None; oi];
+                    fp.opens.push(Some(*k));
+                    try_one(fp, format!("open[{oi}]={:?}", k), &mut rep, &mut viol, &mut log);
+                    events += 1;
+                }
             }
             for pm in [ParentMode::ReturnNone, ParentMode::ReturnEmpty, ParentMode::ReturnUnrelated, ParentMode::NodeDirname] {
                 let mut fp = base.faults.clone();
@@ -987,6 +1020,11 @@ impl Engine for C13 {
             q.case.file = "/abs/dir/a.js".into();
             out.push(q);
         }
+        if c.log_level != "off" && !c.log_level.is_empty() {
+            let mut q = p.clone();
+            q.case.log_level = "off".into();
+            out.push(q);
+        }
         // smaller source: drop line ranges (halves, quarters, single lines)
         let lines: Vec<&str> = c.source.split('\n').collect();
         let n = lines.len();
@@ -1033,12 +1071,13 @@ impl Engine for C13 {
             "source_tail": p.case.source.chars().rev().take(120).collect::<String>().chars().rev().collect::<String>(),
             "fs": p.case.fs.nodes.keys().map(|k| k.chars().take(60).collect::<String>()).collect::<Vec<_>>(),
             "faults": summarise_faults(&p.case.faults),
+            "log_level": p.case.log_level,
             "sweep_chunk": p.sweep_chunk,
         })
     }
 
     fn rule(&self) -> String {
-        "a case is one rewrite call (to_config -> rewrite_js -> print_js -> get_metrics) under catch_unwind with a simulated reader; 'single' runs draw (configuration, file-name shape, source kind, reference kind, map body class, multi-fault schedule); every 25th run is a sweep that re-executes one call once per single-fault point of its fault-free execution: (read index x 7 error kinds + EOF), (byte position x {truncate, bit flip}), every open error, every parent() mode. evaluations counts runs; counters.calls counts rewrite calls. distinct = hash of (tags, fault kinds with head/body/tail position bucket, parent mode, chunk, fired fault set, outcome class); non-trivial = at least one injected fault or a non-valid source".into()
+        "a case is one rewrite call (to_config -> rewrite_js -> print_js -> get_metrics) under catch_unwind with a simulated reader; 'single' runs draw (configuration, process log level, file-name shape, source kind, reference kind, map body class, multi-fault schedule incl. the i-th open failing); every 25th run is a sweep that re-executes one call once per single-fault point of its fault-free execution: (read index x 7 error kinds + EOF), (byte position x {truncate, bit flip}), every open error, every parent() mode. evaluations counts runs; counters.calls counts rewrite calls. distinct = hash of (tags, fault kinds with head/body/tail position bucket, parent mode, chunk, fired fault set, outcome class); non-trivial = at least one injected fault or a non-valid source".into()
     }
 
     fn components(&self) -> Value {
